@@ -69,6 +69,7 @@ def _worker_init(prop, tier, seed):
     os.makedirs(os.environ['XDG_CACHE_HOME'], exist_ok=True)
     import warnings
     warnings.filterwarnings('ignore')
+    sys.stdout = open(os.devnull, 'w')   # the library prints diagnostics on errors; results travel through the pool
     import numpy as np
     import random
     np.random.seed(seed)
